@@ -176,6 +176,29 @@ except ValueError:
 b = {1: 2}
 c = b[t(1, 5)]
 ''',
+    # coroutines driven by hand: an `async def` is a function definition like any other (docstring, body brackets, guards);
+    # no `await` (under a deferred event it would move into a lambda: known finding C08-deferred-changes-meaning)
+    "asyncs": '''a = 1
+async def af1(p=1):
+    """adoc"""
+    x = p + a
+    for i in range(2):
+        x = x + i
+    return x
+async def af2(q):
+    "only a docstring"
+async def af3(q):
+    return [q, q + 1]
+def drive(co):
+    try:
+        co.send(None)
+    except StopIteration as e:
+        return e.value
+b = drive(af1(2))
+c = drive(af2(3))
+d = drive(af3(4))
+e = (af1.__doc__, af2.__doc__, af3.__doc__)
+''',
     # destructuring targets whose elements evaluate something: every occurrence inside a target display reports like the same target written alone
     "targets": '''bx = Box(5)
 by = Box(bx)
